@@ -69,4 +69,19 @@ def visible (now : Int) (a : Alert) : Bool := !decide (a.endsAt < now)
 /-- `getAlertsHandler` without label / receiver / state filters. -/
 def getAlerts (now : Int) (s : Store) : List Alert := (s.map Prod.snd).filter (visible now)
 
+/-- the `active` / `silenced` / `inhibited` query flags of `GET /alerts` and `GET /alerts/groups` (all default to true). -/
+structure Flags where
+  active : Bool := true
+  silenced : Bool := true
+  inhibited : Bool := true
+  deriving Repr, DecidableEq
+
+/-- the status part of api/v2 `alertFilter`: three independent exclusions on the alert's CURRENT status
+    (`nSil` = silences muting it, `nInh` = alerts inhibiting it; state `active` = neither). -/
+def passesFlags (f : Flags) (nSil nInh : Nat) : Bool :=
+  if !f.active && (nSil == 0 && nInh == 0) then false
+  else if !f.silenced && nSil != 0 then false
+  else if !f.inhibited && nInh != 0 then false
+  else true
+
 end AM.Ingest
